@@ -245,7 +245,7 @@ PROPS = {
     "C18": {
         "harness": [{"cmd": "c18", "n": {"quick": 200, "thorough": 4000}, "extra": ["-per", "25"]}],
         "extra_targets": ["Corr/C18Cert.vo"],
-        "rule": "JC, K2P (5 kappas), F81, F84, TN93, GTR (six rates k/4, k=1..16) with base frequencies on the open "
+        "rule": "JC, K2P (5 kappas), F81, F84, TN93, TN93 (20% with kappa1 = kappa2 = 1), GTR (six rates k/4, k=1..16, 17% all equal: repeated eigen values) with base frequencies on the open "
                 "simplex in 32nds, and the seven protein matrices with their own or random user frequencies in 256ths "
                 "(10% of the cases); for branch lengths s, t in {1/64, 1/8, 1/2, 1, 2, 5} the matrices P(0), P(s), P(t), "
                 "P(s+t), P(100), P(2^-20) of models.NewPij and the eigen system of Model.Eigens() are exported as exact "
@@ -281,8 +281,8 @@ PROPS = {
         "nontrivial": lambda m: not str(m.get("op", "")).endswith(":error"),
         "assumptions": [
             "binary64 rounding, math.Log/Exp/Pow/Sqrt and gonum's gamma quantile are outside the model; sums are "
-            "judged with relative tolerance 1e-9, the category mean with 1e-6, monotonicity of the incomplete gamma "
-            "ratio with 1e-7 (the routine's own accuracy is 1e-8)",
+            "judged with relative tolerance 1e-9, the category mean with 1e-6, sign and order of the category rates with "
+            "1e-12 absolute, monotonicity of the incomplete gamma ratio with 1e-7 (the routine's own accuracy is 1e-8)",
             "math/rand's global source after rand.Seed(s) equals rand.New(rand.NewSource(s)) (checked by the replay)",
         ],
     },
